@@ -287,53 +287,221 @@ func RepresentativeDeletion(p *core.Program, r *core.Report, rule string) {
 		r.Lost(rule, "(*PolicyEngine).removeRepresentativePeersMatchingLabels")
 		return
 	}
+	// The removal decision, wherever it is written: the append to the list of keys to delete, a delete inside the loop
+	// over the map, or the positive answers of the predicate handed to maps.DeleteFunc. On each, the path must entail
+	// the six documented facts. The facts are canonical atoms built from the FIELDS a tested value derives from
+	// (locals unfolded), and a multi-statement boolean helper on the path contributes what all its positive answers
+	// entail - so neither the names of locals nor the place of the tests matters.
 	info := fd.Pkg.TypesInfo
-	w := facts.NewWalker(info)
-	found := false
-	w.OnStmt = func(s ast.Stmt, f facts.Formula) {
-		as, ok := s.(*ast.AssignStmt)
-		if !ok || len(as.Rhs) != 1 {
-			return
-		}
-		c, ok := ast.Unparen(as.Rhs[0]).(*ast.CallExpr)
-		if !ok || !core.IsBuiltinCall(info, c, "append") {
-			return
-		}
-		found = true
-		bg := facts.MkAnd(f, facts.LenImplications(f))
-		need := map[string]bool{"pod-expr": false, "ns-expr": false, "pod-match": false, "ns-match": false, "ns-nonempty": false, "pod-nonempty": false}
-		for _, a := range facts.Atoms(bg) {
-			pos := facts.Entails(bg, facts.Atom(a))
-			neg := facts.Entails(bg, facts.Not{X: facts.Atom(a)})
-			switch {
-			case strings.HasPrefix(a, "empty:") && strings.HasSuffix(a, "RepresentativePodLabelSelector.MatchExpressions") && pos:
-				need["pod-expr"] = true
-			case strings.HasPrefix(a, "empty:") && strings.HasSuffix(a, "RepresentativeNsLabelSelector.MatchExpressions") && pos:
-				need["ns-expr"] = true
-			case strings.Contains(a, "odSelector") && strings.Contains(a, ".Matches(") && pos:
-				need["pod-match"] = true
-			case strings.Contains(a, "NsSelector") && strings.Contains(a, ".Matches(") && pos:
-				need["ns-match"] = true
-			case strings.Contains(a, "NsSelector") && strings.HasSuffix(a, ".Empty()") && neg:
-				need["ns-nonempty"] = true
-			case strings.Contains(a, "odSelector") && strings.HasSuffix(a, ".Empty()") && neg:
-				need["pod-nonempty"] = true
-			}
-		}
+	want := []string{"!expr:pod", "!expr:ns", "!emptysel:pod", "!emptysel:ns", "match:pod", "match:ns"}
+	c := fd.Key() + ": a representative peer is removed only under the documented condition"
+	n := 0
+	judge := func(at ast.Node, have map[string]bool) {
+		n++
 		var miss []string
-		for k, v := range need {
-			if !v {
+		for _, k := range want {
+			if !have[k] {
 				miss = append(miss, k)
 			}
 		}
-		r.Check(len(miss) == 0, rule, fd.Key()+": a representative peer is removed only under the documented condition", p.Pos(as.Pos()),
+		r.Check(len(miss) == 0, rule, c, p.Pos(at.Pos()),
 			"neither selector has matchExpressions, both matchLabels selectors are non-empty and both match the real pod and its namespace",
-			"a representative peer is scheduled for removal without all of: no matchExpressions in the pod AND namespace selectors, non-empty selectors, both matching the real pod/namespace (missing: "+strings.Join(miss, ", ")+"): a real pod that satisfies only part of a rule's selectors would hide the rule's exposure")
+			"a representative peer is scheduled for removal without all of: no matchExpressions in the pod AND namespace selectors, non-empty selectors, both matching the real pod/namespace (not established: "+strings.Join(miss, ", ")+"): a real pod that satisfies only part of a rule's selectors would hide the rule's exposure")
+	}
+	decide := func(at ast.Node, w *facts.Walker, f facts.Formula, in *types.Info) {
+		judge(at, repRemovalFacts(p, in, w, f, 0))
+	}
+	w := facts.NewWalker(info)
+	w.Atomize = repSelectorAtomizer(info, fd.Decl.Body)
+	w.Inline = true
+	w.OnStmt = func(s ast.Stmt, f facts.Formula) {
+		if w.FuncLitDepth > 0 {
+			return
+		}
+		switch x := s.(type) {
+		case *ast.AssignStmt:
+			if len(x.Rhs) != 1 || len(w.Loops) == 0 {
+				return
+			}
+			if cl, ok := ast.Unparen(x.Rhs[0]).(*ast.CallExpr); ok && core.IsBuiltinCall(info, cl, "append") {
+				if t, isS := info.TypeOf(x.Lhs[0]).Underlying().(*types.Slice); isS {
+					if b, isB := t.Elem().Underlying().(*types.Basic); isB && b.Info()&types.IsString != 0 {
+						decide(x, w, f, info)
+					}
+				}
+			}
+		case *ast.ExprStmt:
+			cl, ok := x.X.(*ast.CallExpr)
+			if !ok {
+				return
+			}
+			if core.IsBuiltinCall(info, cl, "delete") && core.FieldOf(info, cl.Args[0]) == rep && len(w.Loops) > 0 {
+				// a delete in the loop that ranges over the keys collected before is not a decision; one in the loop over the map is
+				if rs, isR := w.Loops[len(w.Loops)-1].(*ast.RangeStmt); isR && FieldBehind(fd, rs.X) == rep {
+					decide(x, w, f, info)
+				}
+			}
+			if fn := core.Callee(info, cl); fn != nil && fn.Pkg() != nil && fn.Pkg().Path() == "maps" && fn.Name() == "DeleteFunc" && len(cl.Args) == 2 && core.FieldOf(info, cl.Args[0]) == rep {
+				lit, isLit := ast.Unparen(cl.Args[1]).(*ast.FuncLit)
+				if !isLit {
+					r.Bad(rule, c, p.Pos(cl.Pos()), "the deletion predicate is not a function literal: its positive answers cannot be examined here")
+					n++
+					return
+				}
+				lw := facts.NewWalker(info)
+				lw.Atomize = repSelectorAtomizer(info, lit.Body)
+				lw.Inline = true
+				lw.OnExit = func(st int, ret *ast.ReturnStmt, lf facts.Formula) {
+					if lw.FuncLitDepth > 0 || ret == nil || len(ret.Results) != 1 {
+						return
+					}
+					if v, isC := core.ConstString(info, ret.Results[0]); isC && v == "false" {
+						return
+					}
+					pf := facts.MkAnd(lf, lw.Cond(ret.Results[0]))
+					if facts.Satisfiable(pf) {
+						decide(ret, lw, pf, info)
+					}
+				}
+				lw.WalkBody(lit.Body, f)
+			}
+		}
 	}
 	w.WalkBody(fd.Decl.Body, nil)
-	if !found {
-		r.Bad(rule, fd.Key()+": a representative peer is removed only under the documented condition", p.Pos(fd.Decl.Pos()), "the collection of keys to delete was not found")
+	if n == 0 {
+		r.Bad(rule, c, p.Pos(fd.Decl.Pos()), "the removal decision (an append to the keys to delete, a delete in the loop over the map, or maps.DeleteFunc on it) was not found")
 	}
+}
+
+// repSelectorAtomizer gives canonical atoms to the tests on a representative peer's selectors, by the field the tested
+// value derives from (locals with a single definition in scope unfolded):
+//
+//	len(X.RepresentativePodLabelSelector.MatchExpressions) > 0   expr:pod      (Ns: expr:ns)
+//	S.Empty() with S built from ..PodLabelSelector.MatchLabels    emptysel:pod
+//	S.Matches(l)                                                  match:pod
+func repSelectorAtomizer(info *types.Info, scope ast.Node) func(w *facts.Walker, e ast.Expr) facts.Formula {
+	which := func(e ast.Expr) string {
+		s := Unfold(info, scope, e)
+		pod, ns := strings.Contains(s, "RepresentativePodLabelSelector"), strings.Contains(s, "RepresentativeNsLabelSelector")
+		switch {
+		case pod && !ns:
+			return "pod"
+		case ns && !pod:
+			return "ns"
+		}
+		return ""
+	}
+	return func(w *facts.Walker, e ast.Expr) facts.Formula {
+		switch x := e.(type) {
+		case *ast.BinaryExpr:
+			// len(<sel>.MatchExpressions) > 0 | != 0 | == 0
+			l, rr := ast.Unparen(x.X), ast.Unparen(x.Y)
+			cl, ok := l.(*ast.CallExpr)
+			if !ok || len(cl.Args) != 1 {
+				return nil
+			}
+			if id, isId := cl.Fun.(*ast.Ident); !isId || id.Name != "len" {
+				return nil
+			}
+			if !strings.HasSuffix(Unfold(info, scope, cl.Args[0]), ".MatchExpressions") {
+				return nil
+			}
+			k := which(cl.Args[0])
+			if v, isC := core.ConstString(info, rr); !isC || v != "0" || k == "" {
+				return nil
+			}
+			switch x.Op {
+			case token.GTR, token.NEQ:
+				return facts.Atom("expr:" + k)
+			case token.EQL:
+				return facts.Not{X: facts.Atom("expr:" + k)}
+			}
+		case *ast.CallExpr:
+			se, ok := ast.Unparen(x.Fun).(*ast.SelectorExpr)
+			if !ok {
+				return nil
+			}
+			fn := core.Callee(info, x)
+			if fn == nil || fn.Pkg() == nil || !strings.HasSuffix(fn.Pkg().Path(), "apimachinery/pkg/labels") {
+				return nil
+			}
+			k := which(se.X)
+			if k == "" {
+				return nil
+			}
+			switch fn.Name() {
+			case "Empty":
+				return facts.Atom("emptysel:" + k)
+			case "Matches":
+				return facts.Atom("match:" + k)
+			}
+		}
+		return nil
+	}
+}
+
+// repRemovalFacts: the canonical literals entailed by f, plus - for every multi-statement boolean module helper whose
+// positive answer f entails - the literals that ALL positive answers of that helper entail.
+func repRemovalFacts(p *core.Program, info *types.Info, w *facts.Walker, f facts.Formula, depth int) map[string]bool {
+	have := map[string]bool{}
+	bg := facts.MkAnd(f, facts.LenImplications(f))
+	for _, a := range facts.Atoms(bg) {
+		for _, pre := range []string{"expr:", "emptysel:", "match:"} {
+			if strings.HasPrefix(a, pre) {
+				if facts.Entails(bg, facts.Atom(a)) {
+					have[a] = true
+				}
+				if facts.Entails(bg, facts.Not{X: facts.Atom(a)}) {
+					have["!"+a] = true
+				}
+			}
+		}
+	}
+	if depth >= 2 || w == nil {
+		return have
+	}
+	for call, atom := range w.CallAtoms {
+		if !facts.Entails(bg, facts.Atom(atom)) {
+			continue
+		}
+		fn := core.Callee(info, call)
+		hd := p.ByObj[fn]
+		if hd == nil {
+			continue
+		}
+		hinfo := hd.Pkg.TypesInfo
+		hw := facts.NewWalker(hinfo)
+		hw.Atomize = repSelectorAtomizer(hinfo, hd.Decl.Body)
+		hw.Inline = true
+		var common map[string]bool
+		hw.OnExit = func(st int, ret *ast.ReturnStmt, hf facts.Formula) {
+			if hw.FuncLitDepth > 0 || ret == nil || len(ret.Results) != 1 {
+				return
+			}
+			if v, isC := core.ConstString(hinfo, ret.Results[0]); isC && v == "false" {
+				return
+			}
+			pf := facts.MkAnd(hf, hw.Cond(ret.Results[0]))
+			if !facts.Satisfiable(pf) {
+				return
+			}
+			got := repRemovalFacts(p, hinfo, hw, pf, depth+1)
+			if common == nil {
+				common = got
+				return
+			}
+			for k := range common {
+				if !got[k] {
+					delete(common, k)
+				}
+			}
+		}
+		hw.WalkBody(hd.Decl.Body, nil)
+		for k := range common {
+			have[k] = true
+		}
+	}
+	return have
 }
 
 // SelectorsFullMatchTable: a negative answer is given only after the
